@@ -291,11 +291,12 @@ class Completion:
                 )
             elif nonterminals[-1] in ('trailer', 'dotted_name') and nodes[-1] == '.':
                 dot = self._module_node.get_leaf_for_position(self._position)
-                if dot.type == "newline":
+                if dot is not None and dot.type == "newline":
                     dot = dot.get_previous_leaf()
-                if dot.type == "endmarker":
+                if dot is None or dot.type == "endmarker":
                     # This is a bit of a weird edge case, maybe we can somehow
-                    # generalize this.
+                    # generalize this. None happens if the cursor is within
+                    # the whitespace after the dot.
                     dot = leaf.get_previous_leaf()
                 cached_name, n = self._complete_trailer(dot.get_previous_leaf())
                 completion_names += n
